@@ -80,13 +80,26 @@ func check(h mx.History) *vlib.Failure {
 		_, e := mx.Run(h, s, false)
 		done <- e
 	}()
+	var e *mx.Err
+	got := false
 	select {
-	case e := <-done:
-		if e != nil {
-			return &vlib.Failure{Kind: e.Kind, Msg: e.Msg}
-		}
+	case e = <-done:
+		got = true
 	case <-time.After(30 * time.Second):
-		return vlib.Failf("deadlock", "the history did not finish within 30 s (a call blocked)")
+		// slow (busy machine, slow disk) or blocked for good?
+		if vlib.ConfirmDeadlock(150*time.Second, func() bool {
+			select {
+			case e = <-done:
+				got = true
+			default:
+			}
+			return got
+		}) {
+			return vlib.Failf("deadlock", "the history did not finish: every goroutine inside the sorter is blocked on a channel or lock (or 180 s passed)")
+		}
+	}
+	if got && e != nil {
+		return &vlib.Failure{Kind: e.Kind, Msg: e.Msg}
 	}
 	return nil
 }
